@@ -8,7 +8,7 @@
    whose call results answer its pending request) produces what [lin k] says.  [lin_reading]: [lin] with
    enough credit is the reading.  The rounds of [local_rounds] are then [lin 0], [lin 1], ... *)
 From Coq Require Import Lia.
-From Aqua Require Import Base Json Air Trace Handler Values Scalars Lens Exec RunExec SeqSem SeqFrag SeqLocal JsonFacts.
+From Aqua Require Import Base Json Air Trace Handler Values Scalars Lens Exec RunExec ExecStreams SeqSem SeqFrag SeqLocal JsonFacts.
 Open Scope N_scope.
 Open Scope list_scope.
 
@@ -283,6 +283,12 @@ Section Local.
           | SLiteral s, SLiteral f => lcall k id vs s f args out
           | _, _ => None
           end
+      | IAp _ a (ApScalar x) =>
+          match SeqSem.resolve_ap p ts ttl (senv vs) a with
+          | ROk j => Some (lleaf (set_var vs (v_name x) j) Done k)
+          | RStuck => Some (lleaf vs Stuck k)
+          | _ => None
+          end
       | ISeq a b =>
           match lin fuel' k id vs a with
           | Some la => match l_st la with
@@ -417,7 +423,8 @@ Section Local.
     hrel (x_handler x) (w_prev w) (w_res w) /\
     map (fun r => (fst r, call_of_request p r)) (x_requests x) = w_reqs w /\
     x_lcid x = w_lcid w /\ x_call_results x = w_rs w /\
-    Forall (covered (x_cids x)) (w_prev w) /\ Forall (covered (x_cids x)) (w_res w).
+    Forall (covered (x_cids x)) (w_prev w) /\ Forall (covered (x_cids x)) (w_res w) /\
+    x_ext x = ext_new.                      (* no stream, stream map or canon map ever appears *)
 
   Definition local_peer (pa : peer_arg) : bool :=
     match pa with PInitPeerId => true | PLiteral q => String.eqb q p | _ => false end.
@@ -497,19 +504,20 @@ Section Local.
       Rres x (w_vars w) -> x_next_peers x = [] -> hrel (x_handler x) (w_prev w) (w_res w) ->
       map (fun r => (fst r, call_of_request p r)) (x_requests x) = w_reqs w ->
       x_lcid x = w_lcid w -> x_call_results x = w_rs w ->
-      Forall (covered (x_cids x)) (w_prev w) -> Forall (covered (x_cids x)) (w_res w) -> Inv x w.
-  Proof. intros. unfold Inv. auto 10. Qed.
+      Forall (covered (x_cids x)) (w_prev w) -> Forall (covered (x_cids x)) (w_res w) ->
+      x_ext x = ext_new -> Inv x w.
+  Proof. intros. unfold Inv. auto 12. Qed.
 
   (* contexts that differ only in what the invariant does not look at (error descriptors, completeness, tracker) *)
   Definition same_core (x y : ctx) : Prop :=
     x_params y = x_params x /\ x_scalars y = x_scalars x /\ x_iterables y = x_iterables x /\
     x_next_peers y = x_next_peers x /\ x_handler y = x_handler x /\ x_requests y = x_requests x /\
-    x_lcid y = x_lcid x /\ x_call_results y = x_call_results x /\ x_cids y = x_cids x.
+    x_lcid y = x_lcid x /\ x_call_results y = x_call_results x /\ x_cids y = x_cids x /\ x_ext y = x_ext x.
 
   Lemma Inv_core : forall x y w, same_core x y -> Inv x w -> Inv y w.
   Proof.
-    intros x y w (A & B & C & D & E & F & G & H & I) (R & I1 & I2 & I3 & I4 & I5 & I6 & I7).
-    apply Inv_intro; rewrite ?D, ?E, ?F, ?G, ?H, ?I; auto. eapply Rres_frame; eauto.
+    intros x y w (A & B & C & D & E & F & G & H & I & J) (R & I1 & I2 & I3 & I4 & I5 & I6 & I7 & I8).
+    apply Inv_intro; rewrite ?D, ?E, ?F, ?G, ?H, ?I, ?J; auto. eapply Rres_frame; eauto.
   Qed.
 
   Lemma ctx_set_errors_core : forall x e i t b, same_core x (ctx_set_errors x e i t b).
@@ -540,7 +548,7 @@ Section Local.
       exists x', exec_call x text t args out = XOk x' /\ Inv x' w /\ x_complete x' = false.
   Proof.
     intros x w text t s f args out HI Hl Hs Hf Ha Ho Hr Hp.
-    pose proof HI as (R & Hnp & Hh & Hrq & Hlc & Hrs & Hc1 & Hc2). pose proof R as (Hpar & _ & _).
+    pose proof HI as (R & Hnp & Hh & Hrq & Hlc & Hrs & Hc1 & Hc2 & Hext). pose proof R as (Hpar & _ & _).
     unfold exec_call. rewrite (resolve_triplet_local _ _ _ _ Hpar Hl Hs Hf). cbn [pbind].
     rewrite (check_output_name_fresh _ _ _ R Ho). cbn [pbind].
     unfold resolved_call_execute.
@@ -566,7 +574,7 @@ Section Local.
                  x_complete x' = false.
   Proof.
     intros x w text t s f args out js HI Hl Hs Hf Ha Ho Hr Hp Hlt.
-    pose proof HI as (R & Hnp & Hh & Hrq & Hlc & Hrs & Hc1 & Hc2). pose proof R as (Hpar & Hsc & Hit).
+    pose proof HI as (R & Hnp & Hh & Hrq & Hlc & Hrs & Hc1 & Hc2 & Hext). pose proof R as (Hpar & Hsc & Hit).
     unfold exec_call. rewrite (resolve_triplet_local _ _ _ _ Hpar Hl Hs Hf). cbn [pbind].
     rewrite (check_output_name_fresh _ _ _ R Ho). cbn [pbind].
     unfold resolved_call_execute.
@@ -577,7 +585,7 @@ Section Local.
     cbn [x_lcid set_handler]. rewrite Hlc.
     assert (E : (4294967295 <=? w_lcid w) = false) by (apply N.leb_gt; exact Hlt). rewrite E.
     eexists. split; [reflexivity|]. split; [|reflexivity].
-    apply Inv_intro; cbn.
+    apply Inv_intro; cbn; try exact Hext.
     - eapply Rres_frame; [exact R | reflexivity..].
     - exact Hnp.
     - rewrite current_peer_p by (cbn; exact Hpar). apply meet_call_end_hrel. exact Hh.
@@ -615,7 +623,7 @@ Section Local.
                  (forall r, answered_value a = inl r -> x_complete x' = x_complete x).
   Proof.
     intros x w text t s f args out js a P' HI Hl Hs Hf Ha Ho Hr Hp Hrs'.
-    pose proof HI as (R & Hnp & Hh & Hrq & Hlc & Hrs & Hc1 & Hc2). pose proof R as (Hpar & Hsc & Hit).
+    pose proof HI as (R & Hnp & Hh & Hrq & Hlc & Hrs & Hc1 & Hc2 & Hext). pose proof R as (Hpar & Hsc & Hit).
     assert (HcP : Forall (covered (x_cids x)) P') by (rewrite Hp in Hc1; inversion Hc1; assumption).
     unfold exec_call. rewrite (resolve_triplet_local _ _ _ _ Hpar Hl Hs Hf). cbn [pbind].
     rewrite (check_output_name_fresh _ _ _ R Ho). cbn [pbind].
@@ -635,7 +643,7 @@ Section Local.
       eexists. split; [eexists; reflexivity|]. split; [|intros r E; discriminate].
       eapply Inv_core; [apply ctx_set_errors_core|].
       unfold after_call, bind_out, done_state, answered_value. rewrite Ecode.
-      apply Inv_intro; cbn.
+      apply Inv_intro; cbn; try exact Hext.
       + eapply Rres_frame; [exact R | reflexivity..].
       + exact Hnp.
       + apply meet_call_end_hrel. exact Hh'.
@@ -658,7 +666,7 @@ Section Local.
           cbn [maybe_set_prev_state].
           eexists. split; [reflexivity|]. split; [|intros r E; reflexivity].
           unfold after_call, bind_out, done_state, answered_value. rewrite Ecode, Epar.
-          apply Inv_intro; cbn.
+          apply Inv_intro; cbn; try exact Hext.
           -- unfold Rres; cbn. split; [exact Hpar|split; [exact Hrel'|exact Hit]].
           -- exact Hnp.
           -- apply meet_call_end_hrel. exact Hh'.
@@ -673,7 +681,7 @@ Section Local.
           cbn [maybe_set_prev_state].
           eexists. split; [reflexivity|]. split; [|intros r E; reflexivity].
           unfold after_call, bind_out, done_state, answered_value. rewrite Ecode, Epar.
-          apply Inv_intro; cbn.
+          apply Inv_intro; cbn; try exact Hext.
           -- eapply Rres_frame; [exact R | reflexivity..].
           -- exact Hnp.
           -- apply meet_call_end_hrel. exact Hh'.
@@ -688,7 +696,7 @@ Section Local.
         eexists. split; [eexists; reflexivity|]. split; [|intros r E; discriminate].
         eapply Inv_core; [apply ctx_set_errors_core|].
         unfold after_call, bind_out, done_state, answered_value. rewrite Ecode, Epar.
-        apply Inv_intro; cbn.
+        apply Inv_intro; cbn; try exact Hext.
         * eapply Rres_frame; [exact R | reflexivity..].
         * exact Hnp.
         * apply meet_call_end_hrel. exact Hh'.
@@ -724,7 +732,7 @@ Section Local.
                  (forall r, answered_value a = inl r -> x_complete x' = x_complete x).
   Proof.
     intros x w text t s f args out js a P' HI Hl Hs Hf Ha Ho Hr Hi32 Hp.
-    pose proof HI as (R & Hnp & Hh & Hrq & Hlc & Hrs & Hc1 & Hc2). pose proof R as (Hpar & Hsc & Hit).
+    pose proof HI as (R & Hnp & Hh & Hrq & Hlc & Hrs & Hc1 & Hc2 & Hext). pose proof R as (Hpar & Hsc & Hit).
     rewrite Hp in Hc1. inversion Hc1 as [|? ? Hcov HcP]; subst.
     unfold exec_call. rewrite (resolve_triplet_local _ _ _ _ Hpar Hl Hs Hf). cbn [pbind].
     rewrite (check_output_name_fresh _ _ _ R Ho). cbn [pbind].
@@ -745,7 +753,7 @@ Section Local.
         rewrite Hset. cbn [tet tp_peer]. rewrite record_cid_p by (cbn; exact Hpar).
         cbn [maybe_set_prev_state].
         eexists. split; [reflexivity|]. split; [|intros r0 E; reflexivity].
-        apply Inv_intro; cbn.
+        apply Inv_intro; cbn; try exact Hext.
         * unfold Rres; cbn. split; [exact Hpar|split; [exact Hrel'|exact Hit]].
         * exact Hnp.
         * apply meet_call_end_hrel. exact Hh'.
@@ -758,7 +766,7 @@ Section Local.
         unfold handle_prev_state, populate_from_data.
         cbn [maybe_set_prev_state].
         eexists. split; [reflexivity|]. split; [|intros r0 E; reflexivity].
-        apply Inv_intro; cbn.
+        apply Inv_intro; cbn; try exact Hext.
         * eapply Rres_frame; [exact R | reflexivity..].
         * exact Hnp.
         * apply meet_call_end_hrel. exact Hh'.
@@ -783,7 +791,7 @@ Section Local.
       cbn [is_joinable].
       eexists. split; [eexists; reflexivity|]. split; [|intros r0 E; discriminate].
       eapply Inv_core; [apply ctx_set_errors_core|].
-      apply Inv_intro; cbn.
+      apply Inv_intro; cbn; try exact Hext.
       + eapply Rres_frame; [exact R | reflexivity..].
       + exact Hnp.
       + apply meet_call_end_hrel. exact Hh'.
@@ -811,6 +819,9 @@ Section Local.
       unfold lcall in H. destruct (resolve_args p ts ttl (senv vs) args); try discriminate.
       + destruct k; inversion H; subst; simpl in *; auto; discriminate.
       + inversion H; subst; simpl in Hr; discriminate.
+    - (* ap *)
+      destruct r0; try discriminate. destruct (resolve_ap p ts ttl (senv vs) a); try discriminate;
+        inversion H; subst; simpl in Hr; discriminate.
     - (* seq *)
       destruct (lin f k id vs i1) as [la|] eqn:Ea; try discriminate.
       destruct (l_st la) eqn:Es; try (inversion H; subst; eapply IH; eauto; fail).
@@ -849,6 +860,9 @@ Section Local.
       unfold lcall in *. destruct (resolve_args p ts ttl (senv vs) args); try discriminate.
       + destruct k; inversion H; subst; simpl in *; [discriminate | reflexivity].
       + inversion H; subst. reflexivity.
+    - (* ap *)
+      destruct r; try discriminate. destruct (resolve_ap p ts ttl (senv vs) a); try discriminate;
+        inversion H; subst; reflexivity.
     - (* seq *)
       destruct (lin f k id vs i1) as [la|] eqn:Ea; try discriminate.
       destruct (l_st la) eqn:Es.
@@ -893,6 +907,7 @@ Section Local.
     destruct i; simpl in H; try discriminate.
     - destruct (t_service t); try discriminate. destruct (t_function t); try discriminate.
       unfold lcall in H. destruct (resolve_args p ts ttl (senv vs) args); try discriminate; inversion H; reflexivity.
+    - destruct r; try discriminate. destruct (resolve_ap p ts ttl (senv vs) a); try discriminate; inversion H; reflexivity.
     - destruct (lin f O id vs i1) as [la|] eqn:Ea; try discriminate. pose proof (IH _ _ _ _ Ea) as Ca.
       destruct (l_st la); try (inversion H; subst; exact Ca).
       unfold lthen in H. rewrite Ca in H. destruct (lin f O id (l_vars la) i2) as [lb|] eqn:Eb; try discriminate.
@@ -922,6 +937,8 @@ Section Local.
       unfold lcall in *. destruct (resolve_args p ts ttl (senv vs) args); try discriminate.
       + destruct k; inversion H; subst; simpl in Hr; try discriminate. inversion H'; reflexivity.
       + inversion H; subst; simpl in Hr; discriminate.
+    - destruct r0; try discriminate. destruct (resolve_ap p ts ttl (senv vs) a); try discriminate;
+        inversion H; subst; simpl in Hr; discriminate.
     - destruct (lin f k id vs i1) as [la|] eqn:Ea; try discriminate.
       destruct (lin f (S k) id' vs i1) as [la'|] eqn:Ea'; try discriminate.
       destruct (l_req la) as [ra|] eqn:Era.
@@ -976,6 +993,8 @@ Section Local.
   Proof.
     induction i; intros B B' L H n Hn; simpl in L; try discriminate; simpl in H; try (inversion H; subst; exact Hn).
     - destruct out; try (inversion H; subst; exact Hn).
+      destruct (smem (v_name v) B); inversion H; subst. rewrite smem_cons, Hn. apply orb_true_r.
+    - destruct r; try discriminate.
       destruct (smem (v_name v) B); inversion H; subst. rewrite smem_cons, Hn. apply orb_true_r.
     - apply andb_prop in L. destruct L as [L1 L2].
       destruct (names_ok B i1) as [B1|] eqn:E1; try discriminate. eauto.
@@ -1088,6 +1107,8 @@ Section Local.
         unfold answered_status. destruct (negb (sa_ret_code (svc p s s0 a) =? 0)%Z); try discriminate.
         destruct (sa_parsed (svc p s s0 a)); discriminate.
       + inversion H; subst; simpl; discriminate.
+    - destruct r; try discriminate. destruct (resolve_ap p ts ttl (senv vs) a); try discriminate;
+        inversion H; subst; simpl; discriminate.
     - destruct (lin f k id vs i1) as [la|] eqn:Ea; try discriminate. pose proof (IH _ _ _ _ _ Ea) as Na.
       destruct (l_st la) eqn:Es; try (inversion H; subst; rewrite Es; discriminate); try congruence.
       unfold lthen in H. destruct (lin f (l_credit la) id (l_vars la) i2) as [lb|] eqn:Eb; try discriminate.
@@ -1224,6 +1245,44 @@ Section Local.
           cbn [bump l_st] in *. rewrite Ecp in *. inversion Hl; subst ln. auto.
   Qed.
 
+  Lemma apply_to_arg_sim : forall x vs a,
+      Rres x vs -> lin_ap a = true ->
+      match SeqSem.resolve_ap p ts ttl (senv vs) a with
+      | ROk j => exists val, apply_to_arg x a false = POk val /\ va_result val = j
+      | RStuck => exists n, apply_to_arg x a false = PErr (ECatch (CVariableNotFound n))
+      | _ => False
+      end.
+  Proof.
+    intros x vs a R Ha. pose proof R as (Hp & Hs & Hi).
+    destruct a; simpl in Ha; try discriminate; cbn [SeqSem.resolve_ap apply_to_arg];
+      unfold init_peer; rewrite ?Hp; cbn [rp_init_peer rp_timestamp rp_ttl params].
+    - eexists. split; reflexivity.
+    - eexists. split; reflexivity.
+    - eexists. split; reflexivity.
+    - eexists. split; reflexivity.
+    - destruct n; eexists; split; reflexivity.
+    - eexists. split; reflexivity.
+    - eexists. split; reflexivity.
+    - rewrite lookup_senv. destruct (assoc vs (v_name v)) as [[j|]|] eqn:E.
+      + destruct (scalars_get_value_found _ _ _ _ R E) as (val & Hg & Hv). rewrite Hg. cbn. eexists. split; [reflexivity|exact Hv].
+      + exfalso. exact (scal_no_uninit _ _ _ Hs E).
+      + rewrite (scalars_get_value_missing _ _ _ R E). cbn. eexists. reflexivity.
+  Qed.
+
+  Lemma after_ap : forall f k w i Prest vs',
+      prev_ok f k w i Prest ->
+      (forall k' id, lin f k' id (w_vars w) i = Some (lleaf vs' Done k')) ->
+      after w (lleaf vs' Done k) Prest (rs_after f k w i) =
+      {| w_vars := vs'; w_prev := w_prev w; w_res := w_res w; w_reqs := w_reqs w; w_lcid := w_lcid w; w_rs := w_rs w |}.
+  Proof.
+    intros f k w i Prest vs' Hp Hl. unfold after, rs_after. cbn [lleaf l_vars l_states l_req].
+    rewrite !app_nil_r. destruct k as [|k'].
+    - destruct Hp as [Hp ->]. rewrite <- Hp. reflexivity.
+    - destruct Hp as (lp & E & Hpv & _ & _). rewrite (Hl k' (w_lcid w)) in E. inversion E; subst lp.
+      rewrite (Hl k' (w_lcid w)). cbn [lleaf l_req]. cbn [lleaf l_states] in Hpv. simpl in Hpv. rewrite <- Hpv.
+      reflexivity.
+  Qed.
+
   Lemma exec_lin : forall f, exec_lin_stmt f.
   Proof.
     induction f as [|f IH]; intros i x w k Prest B B' ln L HI Hlt Hp Hb Hn Hl; [discriminate|].
@@ -1298,6 +1357,32 @@ Section Local.
             by (intros; rewrite Hlin; unfold lcall; rewrite Er; reflexivity).
           exact HI'.
         * split; [exact HbB'|]. split; [intros _; exact Hc | discriminate].
+    - (* ap *)
+      destruct r as [v|v]; try discriminate.
+      pose proof HI as (R & Hnp & Hh & Hrq & Hlc & Hrs & Hc1 & Hc2 & Hext). pose proof R as (Hpar & Hsc & Hit).
+      pose proof (apply_to_arg_sim x _ a R L) as Sa.
+      simpl in Hn. destruct (smem (v_name v) B) eqn:Em; inversion Hn; subst B'.
+      assert (Hf : assoc (w_vars w) (v_name v) = None).
+      { destruct (assoc (w_vars w) (v_name v)) eqn:E; auto.
+        assert (X : smem (v_name v) B = true) by (apply Hb; congruence). congruence. }
+      simpl in Hl. simpl exec. unfold exec_ap.
+      destruct (SeqSem.resolve_ap p ts ttl (senv (w_vars w)) a) as [j| | |] eqn:Ea; try contradiction.
+      + (* the value is there: the scalar is set *)
+        destruct Sa as (val & Sa & Hval). rewrite Sa. unfold set_scalar_value.
+        destruct (scal_set_fresh _ _ (v_name v) val Hsc Hf) as (m' & Hset & Hrel'). rewrite Hset. cbn [lift wrap_errors].
+        inversion Hl; subst ln. cbn [lleaf l_st outcome_of l_vars].
+        eexists. split; [reflexivity|]. split.
+        * rewrite (after_ap (S f) k w (IAp text a (ApScalar v)) Prest _ Hp) by (intros; simpl; rewrite Ea; reflexivity).
+          apply Inv_intro; cbn; try exact Hext; try assumption.
+          unfold Rres; cbn. rewrite Hval in Hrel'. split; [exact Hpar|split; [exact Hrel'|exact Hit]].
+        * split; [apply bound_in_set_var; exact Hb|]. split; [discriminate|]. intros _ Hx. exact Hx.
+      + (* the value is not there yet *)
+        destruct Sa as (n & Sa). rewrite Sa. cbn [is_joinable wrap_errors].
+        inversion Hl; subst ln. cbn [lleaf l_st outcome_of l_vars].
+        exists (make_incomplete x). split; [reflexivity|]. split.
+        * rewrite (after_leaf (S f) k w (IAp text a (ApScalar v)) Prest Stuck Hp) by (intros; simpl; rewrite Ea; reflexivity).
+          eapply Inv_core; [|exact HI]. repeat split.
+        * split; [apply bound_in_weaken; exact Hb|]. split; [reflexivity | discriminate].
     - (* seq *)
       apply andb_prop in L. destruct L as [La Lb].
       simpl in Hn. destruct (names_ok B i1) as [B1|] eqn:En1; try discriminate.
@@ -1547,6 +1632,13 @@ Section Local.
     specialize (IH Hr). destruct (SeqSem.resolve_args p ts ttl (senv vs) r); simpl; auto.
   Qed.
 
+  Lemma resolve_ap_lin : forall vs a, no_uninit vs -> lin_ap a = true ->
+      match SeqSem.resolve_ap p ts ttl (senv vs) a with ROk _ | RStuck => True | _ => False end.
+  Proof.
+    intros vs a Hn Ha. destruct a; simpl in Ha; try discriminate; simpl; auto.
+    rewrite lookup_senv. destruct (assoc vs (v_name v)) as [[j|]|] eqn:E; auto. exact (Hn _ E).
+  Qed.
+
   Definition two_matches_stmt (cont : status -> bool) (f : nat) (vs : vars_t) (a b : instr)
              (cs : list call_ev) (e : env) (st : status) : Prop :=
     forall k id, exists l, two cont f k id vs a b = Some l /\
@@ -1617,6 +1709,15 @@ Section Local.
              ++ eexists. split; [reflexivity|]. split; [|simpl; lia]. intros _. simpl. rewrite Nat.sub_0_r. auto.
       + inversion H; subst. split; [reflexivity|]. split; [try exact Hnu; try (apply no_uninit_set_var; exact Hnu)|]. split; [discriminate|]. intros k id.
         eexists. split; [reflexivity|]. split; [|simpl; lia]. intros _. simpl. rewrite Nat.sub_0_r. auto.
+    - (* ap *)
+      destruct r as [v|v]; try discriminate.
+      pose proof (resolve_ap_lin vs a Hnu L) as Va.
+      unfold lin_matches. simpl lin.
+      destruct (SeqSem.resolve_ap p ts ttl (senv vs) a) as [j| | |] eqn:Ea; try contradiction; cbn [early] in H.
+      + inversion H; subst. split; [reflexivity|]. split; [apply no_uninit_set_var; exact Hnu|]. split; [discriminate|].
+        intros k id. eexists. split; [reflexivity|]. split; [|simpl; lia]. intros _. simpl. rewrite Nat.sub_0_r. auto.
+      + inversion H; subst. split; [reflexivity|]. split; [exact Hnu|]. split; [discriminate|].
+        intros k id. eexists. split; [reflexivity|]. split; [|simpl; lia]. intros _. simpl. rewrite Nat.sub_0_r. auto.
     - (* seq *)
       apply andb_prop in L. destruct L as [La Lb].
       destruct (sread f (senv vs) i1) as [csa ea sta| |] eqn:Ea; cbn [andthen] in H; try discriminate.
@@ -1710,6 +1811,12 @@ Section Rounds.
   Variable p : string.
   Variable ts ttl : N.
   Hypothesis codes_i32 : ret_codes_i32 svc.
+  (* the executor: any stream hook (never consulted), any end-of-run step that leaves a context without streams alone *)
+  Variable hook : (instr -> ctx -> xres) -> instr -> ctx -> option xres.
+  Variable finish : ctx -> ctx + uncatchable.
+  Hypothesis finish_ok : forall x, x_ext x = ext_new ->
+      exists y, finish x = inl y /\ data_of_ctx y = data_of_ctx x /\ x_next_peers y = x_next_peers x /\
+                x_requests y = x_requests x.
 
   Notation lin := (lin svc p ts ttl).
   Notation covered := covered.
@@ -1735,7 +1842,7 @@ Section Rounds.
       round_ok f s n d rs ->
       lin f n (N.of_nat n + 1) [] s = Some ln ->
       exists code d' reqs signed,
-        run1 f {| ri_script := s; ri_params := params p ts ttl; ri_prev := d; ri_cur := empty_data; ri_results := rs |}
+        run hook finish f {| ri_script := s; ri_params := params p ts ttl; ri_prev := d; ri_cur := empty_data; ri_results := rs |}
         = OutNewData code d' [] reqs signed /\
         d_trace d' = l_states ln /\
         d_lcid d' = (match l_req ln with Some _ => N.of_nat n + 1 | None => N.of_nat n end) /\
@@ -1746,7 +1853,7 @@ Section Rounds.
     set (inp := {| ri_script := s; ri_params := params p ts ttl; ri_prev := d; ri_cur := empty_data; ri_results := rs |}).
     set (w0 := {| w_vars := []; w_prev := d_trace d; w_res := []; w_reqs := []; w_lcid := N.of_nat n; w_rs := rs |}).
     assert (HI : Inv p ts ttl (initial_ctx inp) w0).
-    { apply Inv_intro; cbn.
+    { apply Inv_intro; cbn; try exact Hext.
       - split; [reflexivity|split; [apply scal_rel_new|reflexivity]].
       - reflexivity.
       - apply hrel_from.
@@ -1754,35 +1861,39 @@ Section Rounds.
       - exact Hlc.
       - reflexivity.
       - rewrite merge_cids_empty. exact Hcov.
-      - constructor. }
+      - constructor.
+      - reflexivity. }
     assert (Hp : prev_ok svc p ts ttl f n w0 s []).
     { destruct n as [|n']; cbn [prev_ok w0 w_prev w_lcid w_vars w_rs].
       - destruct Hprev as [-> _]. auto.
       - destruct Hprev as (lp & c & Elp & Htr & Hrq & Hrs). exists lp. split; [exact Elp|]. split; [rewrite app_nil_r; exact Htr|].
         split; [reflexivity|]. intros id c' X. rewrite Hrq in X. injection X as <- <-. exact Hrs. }
     assert (Hb : bound_in [] []) by (intros m Hm; simpl in Hm; congruence).
-    destruct (exec_lin svc p ts ttl no_streams codes_i32 f s (initial_ctx inp) w0 n [] [] B' ln L HI Hlt Hp Hb Hn Hl)
+    destruct (exec_lin svc p ts ttl hook codes_i32 f s (initial_ctx inp) w0 n [] [] B' ln L HI Hlt Hp Hb Hn Hl)
       as (x' & Ho & HI' & _ & _ & _).
-    destruct HI' as (R' & Hnp & Hh & Hrq & Hlc' & Hrs' & _ & Hc2).
+    destruct HI' as (R' & Hnp & Hh & Hrq & Hlc' & Hrs' & _ & Hc2 & Hext').
     pose proof (hrel_result _ _ _ Hh) as Htr. cbn [after w_res w0 app] in Htr, Hc2.
+    destruct (finish_ok x' Hext') as (y & Ef & Hd & Hnpy & Hrqy).
     assert (Hout : forall code, exists d' reqs signed,
-               OutNewData code (data_of_ctx x') (dedup (x_next_peers x') []) (x_requests x') (x_tracker x')
-               = OutNewData code d' [] reqs signed /\ d_trace d' = l_states ln /\
+               match finish x' with
+               | inl x1 => OutNewData code (data_of_ctx x1) (dedup (x_next_peers x1) []) (x_requests x1) (x_tracker x1)
+               | inr u => OutPrevData (uncatchable_code u)
+               end = OutNewData code d' [] reqs signed /\ d_trace d' = l_states ln /\
                d_lcid d' = (match l_req ln with Some _ => N.of_nat n + 1 | None => N.of_nat n end) /\
                Forall (covered (d_cids d')) (d_trace d') /\
                map (fun r => (fst r, call_of_request p r)) reqs = match l_req ln with Some r => [r] | None => [] end).
-    { intros code. exists (data_of_ctx x'), (x_requests x'), (x_tracker x'). rewrite Hnp. cbn [dedup].
+    { intros code. exists (data_of_ctx x'), (x_requests x'), (x_tracker y). rewrite Ef, Hd, Hnpy, Hrqy, Hnp. cbn [dedup].
       split; [reflexivity|]. unfold data_of_ctx. cbn [d_trace d_lcid d_cids]. rewrite Htr.
       split; [reflexivity|]. split; [exact Hlc'|]. split; [exact Hc2|]. exact Hrq. }
-    unfold run1, run. fold inp. change (ri_script inp) with s. unfold outcome_of in Ho.
+    unfold run. fold inp. change (ri_script inp) with s. unfold outcome_of in Ho.
     destruct (l_st ln).
-    - rewrite Ho. unfold no_finish. cbv beta iota. destruct (Hout (match x_call_results x' with [] => 0%Z | _ => farewell_error_code end)) as (d' & reqs & sg & E & X).
+    - rewrite Ho. destruct (Hout (match x_call_results x' with [] => 0%Z | _ => farewell_error_code end)) as (d' & reqs & sg & E & X).
       eexists. exists d', reqs, sg. split; [exact E | exact X].
-    - rewrite Ho. unfold no_finish. cbv beta iota. destruct (Hout (match x_call_results x' with [] => 0%Z | _ => farewell_error_code end)) as (d' & reqs & sg & E & X).
+    - rewrite Ho. destruct (Hout (match x_call_results x' with [] => 0%Z | _ => farewell_error_code end)) as (d' & reqs & sg & E & X).
       eexists. exists d', reqs, sg. split; [exact E | exact X].
-    - rewrite Ho. unfold no_finish. cbv beta iota. destruct (Hout (match x_call_results x' with [] => 0%Z | _ => farewell_error_code end)) as (d' & reqs & sg & E & X).
+    - rewrite Ho. destruct (Hout (match x_call_results x' with [] => 0%Z | _ => farewell_error_code end)) as (d' & reqs & sg & E & X).
       eexists. exists d', reqs, sg. split; [exact E | exact X].
-    - destruct Ho as (c & Ho). rewrite Ho. unfold no_finish. cbv beta iota. destruct (Hout (catchable_code c)) as (d' & reqs & sg & E & X).
+    - destruct Ho as (c & Ho). rewrite Ho. destruct (Hout (catchable_code c)) as (d' & reqs & sg & E & X).
       eexists. exists d', reqs, sg. split; [exact E | exact X].
   Qed.
 
@@ -1798,7 +1909,7 @@ Section Rounds.
       seq_eval (svc_answer svc) everything_known p ts ttl f empty_env s = Out cs e st ->
       N.of_nat (length cs) < 4294967295 ->
       forall m n d rs, (n + m = length cs)%nat -> round_ok f s n d rs ->
-        local_rounds svc ts ttl (S m) f p s d rs = Some (map (fun c => [c]) (skipn n cs)).
+        local_rounds_with svc ts ttl (run hook finish) (S m) f p s d rs = Some (map (fun c => [c]) (skipn n cs)).
   Proof.
     intros f s cs e st B' L Hn Hread Hlen.
     assert (Hnu : no_uninit []) by (intros m; simpl; discriminate).
@@ -1808,20 +1919,20 @@ Section Rounds.
       destruct (M n (N.of_nat n + 1)) as (l & El & Hge & _).
       destruct (Hge ltac:(lia)) as (Hreq & _).
       destruct (round_step f s n d rs B' l L Hn ltac:(lia) Hr El) as (code & d' & reqs & sg & Erun & _ & _ & _ & Hrq).
-      cbn [local_rounds]. fold (params p ts ttl). rewrite Erun. rewrite Hreq in Hrq.
+      cbn [local_rounds_with]. fold (params p ts ttl). rewrite Erun. rewrite Hreq in Hrq.
       destruct reqs; [|discriminate]. replace n with (length cs) by lia. rewrite skipn_all. reflexivity.
     - destruct (M n (N.of_nat n + 1)) as (l & El & _ & Hlt).
       destruct (Hlt ltac:(lia)) as (c & Hnth & Hreq & _).
       destruct (round_step f s n d rs B' l L Hn ltac:(lia) Hr El) as (code & d' & reqs & sg & Erun & Htr & Hlc & Hcov & Hrq).
       rewrite Hreq in Hrq, Hlc.
       destruct reqs as [|[id rq] [|r2 reqs]]; try discriminate. cbn [map fst] in Hrq. injection Hrq as Hid Hc.
-      change (local_rounds svc ts ttl (S (S m)) f p s d rs) with
-        (match run1 f {| ri_script := s; ri_params := params p ts ttl; ri_prev := d; ri_cur := empty_data; ri_results := rs |} with
+      change (local_rounds_with svc ts ttl (run hook finish) (S (S m)) f p s d rs) with
+        (match run hook finish f {| ri_script := s; ri_params := params p ts ttl; ri_prev := d; ri_cur := empty_data; ri_results := rs |} with
          | OutNewData _ d0 next reqs0 _ =>
              match next, reqs0 with
              | [], [] => Some []
              | [], _ => option_map (cons (map (call_of_request p) reqs0))
-                                   (local_rounds svc ts ttl (S m) f p s d0 (map (answer_request svc p) reqs0))
+                                   (local_rounds_with svc ts ttl (run hook finish) (S m) f p s d0 (map (answer_request svc p) reqs0))
              | _, _ => None
              end
          | _ => None
@@ -1840,7 +1951,7 @@ Section Rounds.
       linear p s = true -> names_ok [] s <> None ->
       seq_eval (svc_answer svc) everything_known p ts ttl fs empty_env s = Out cs e st ->
       N.of_nat (length cs) < 4294967295 ->
-      local_rounds svc ts ttl (S (length cs)) fs p s empty_data [] = Some (map (fun c => [c]) cs).
+      local_rounds_with svc ts ttl (run hook finish) (S (length cs)) fs p s empty_data [] = Some (map (fun c => [c]) cs).
   Proof.
     intros s fs cs e st L Hn Hread Hlen.
     destruct (names_ok [] s) as [B'|] eqn:En; [|congruence].
@@ -1849,8 +1960,23 @@ Section Rounds.
   Qed.
 End Rounds.
 
+Lemma no_finish_ok : forall x, x_ext x = ext_new ->
+    exists y, no_finish x = inl y /\ data_of_ctx y = data_of_ctx x /\ x_next_peers y = x_next_peers x /\
+              x_requests y = x_requests x.
+Proof. intros x _. exists x. repeat split. Qed.
+
+Lemma finish_streams_ok : forall x, x_ext x = ext_new ->
+    exists y, finish_streams x = inl y /\ data_of_ctx y = data_of_ctx x /\ x_next_peers y = x_next_peers x /\
+              x_requests y = x_requests x.
+Proof.
+  intros x H. unfold finish_streams, compactify_table, table_of. rewrite H. cbn. rewrite H. cbn.
+  eexists. split; [reflexivity|]. repeat split.
+Qed.
+
 Theorem C16_local_linear : forall svc ts ttl, C16_local_linear_stmt svc ts ttl.
 Proof.
   intros svc ts ttl p s fs cs e st Hc L Hn Hread Hlen.
-  exists (S (length cs)), fs. exact (C16_local_linear_proof svc p ts ttl Hc s fs cs e st L Hn Hread Hlen).
+  exists (S (length cs)), fs. split.
+  - exact (C16_local_linear_proof svc p ts ttl Hc no_streams no_finish no_finish_ok s fs cs e st L Hn Hread Hlen).
+  - exact (C16_local_linear_proof svc p ts ttl Hc stream_instr finish_streams finish_streams_ok s fs cs e st L Hn Hread Hlen).
 Qed.
